@@ -311,4 +311,54 @@ CHECKS = {
         "race": True,
         "tests": [{"name": "TestC14", "quick": 2400, "thorough": 120000}],
     },
+    "C01": {
+        "rule": "wire level: a generated schema, libovsdb's server on a unix socket, a plain writer client and 1-2 monitoring clients with 1-2 "
+                "monitors each (method drawn from monitor / monitor_cond / monitor_cond_since; disjoint table subsets; all columns or a drawn "
+                "column subset per table), each established at a drawn point of a history of 1-16 committed transactions (inserts, updates, "
+                "mutations, deletes, GC, weak pruning, several rows per transaction) issued by the writer or by a monitoring client. One third of "
+                "the monitors are established with the window schedule: the verif pause point parks Monitor() after the reply, one more "
+                "transaction is committed (its notification is handled by the read loop meanwhile), then the monitor is released - for first "
+                "and additional monitors alike. After every establishment and every transaction, for every monitor: "
+                "client.Cache().Table(t).Rows() projected on the monitored columns = Database.List of the server projected the same way "
+                "(no waiting: the server notifies before it replies), immediately after the issuer's own Transact too; all clients must "
+                "still be connected. evaluations = cases (each with up to ~100 cache/database comparisons). Non-trivial = a monitor established "
+                "strictly inside the history with committed transactions after it; distinct = hash of (schema kinds, monitor "
+                "methods/positions/schedules, history length).",
+        "assumptions": COMMON_ASSUMPTIONS + [
+            "the peer is libovsdb's own server (no ovsdb-server offline): it never answers monitor_cond_since with found=true and never sends update3",
+            "the monitors of one client cover disjoint table sets; monitor conditions (where) are empty",
+            "known finding v1-default-reset: for 'monitor'-method monitors columns whose database value is the type default are not compared",
+            "the server's database is the ground truth here (its conformance is C03's subject)",
+        ],
+        "level_text": "exploration: generated schemas x histories x monitor configurations x establishment points x reply/notification order, whole-cache comparison after every step",
+        "level_note": "the window order is forced through the verif hook monitor:reply; every other ordering is whatever the two goroutines do",
+        "technique": "property-based testing (rapid): stateful wire-level histories with a harness-owned pause point, cache-vs-database oracle",
+        "tests": [{"name": "TestC01", "quick": 900, "thorough": 60000}],
+    },
+    "C07": {
+        "rule": "TestC07 (wire): 2-4 raw JSON-RPC peers (no libovsdb client code) register monitors after a drawn prefix of the history: every "
+                "method, any subset of tables, omitted columns (= all) or a drawn subset (possibly empty), omitted select or every combination "
+                "of initial/insert/delete/modify present-true/present-false/absent; the first peer monitors everything. The initial reply "
+                "must match the database (and be empty when initial is false). A writer commits 1-12 generated transactions; after each one "
+                "every peer must have received exactly one message iff the difference between the database before and after (refdb.Diff over "
+                "Database.List) contains something it selected: the right method and monitor id, no empty table entries, exactly the "
+                "selected rows with the right kind, no unselected column, and state-before + message (applied with the harness' own update / "
+                "update2 rules) = state-after on the monitored columns; old values must be the previous values. Failed transactions must "
+                "produce no message at all. TestC07L1: the same pre + update = post law on database.Update for thousands of L1 histories "
+                "(GC, pruning, merges). Non-trivial = transaction with >=2 net row changes (wire) / GC, pruning or multi-operation "
+                "transactions (L1); distinct = hash of (schema kinds, peer requests, history length).",
+        "assumptions": COMMON_ASSUMPTIONS + [
+            "an RFC 'update' new row is taken as the complete monitored row with absent = default (the server omits default-valued "
+            "columns; the effect on libovsdb's own client is the known finding v1-default-reset under C01); extra columns in old are tolerated",
+            "an empty monitor-requests map is not generated (the server documents it as 'all tables')",
+            "initial replies are compared on the requested columns only (known finding select-columns makes them carry more)",
+        ],
+        "level_text": "exploration: generated monitor requests x histories, every message checked against an independently computed state difference",
+        "level_note": "messages are counted between Transact returns: the server delivers notifications (and waits for the peer's reply) before answering transact",
+        "technique": "property-based testing (rapid): raw-peer replicas with an independent update/update2 applier, metamorphic filter law against the database difference",
+        "tests": [
+            {"name": "TestC07", "quick": 1200, "thorough": 80000},
+            {"name": "TestC07L1", "quick": 1600, "thorough": 120000},
+        ],
+    },
 }
